@@ -474,4 +474,23 @@ func registerRound5() {
 			Srv: srv, Conns: []ConnSpec{cs}, Quick: 2, Thor: 3,
 		})
 	}
+
+	// ---------------------------------------------------------------- C07 / C05: a client is gone (reset) while its
+	// handler is still at work; the handler writes late, while a newer connection is being served: nothing of
+	// it reaches the newer connection
+	regSpec(&Spec{
+		Name: "late-write-of-gone-client-vs-newer-connection", Props: []string{"C07", "C05", "C08"}, WriterRaceIs: "C07",
+		Conns: []ConnSpec{
+			{Ops: []string{"search"}, H: map[int]*HSpec{1: {WaitNote: "fresh-answered", Frames: []int{10}}}, Read: "none", End: "reset", EndNote: "started-1", Name: "faulty"},
+			{Ops: []string{"bind", "search"}, Segs: []int{1, 1}, AckAt: 1, AckNote: "fresh-answered", Expect: 2, Name: "fresh", WaitNote: "faulty-done", EndNote: "all-finished"},
+		},
+		Extra: func(w *World) {
+			watchStarted(1)(w)
+			vrt.GoNamed("watch2", func() {
+				vrt.WaitUntil("finished", func() bool { return w.Finished >= 3 })
+				vrt.Atomic(func() { w.Notes["all-finished"]++ })
+			})
+		},
+		Quick: 2, Thor: 3,
+	})
 }
